@@ -82,7 +82,7 @@ func (e *c09Exec) Check(o *mc.Outcome) []Viol {
 	out := e.W.buf.String()
 	if e.Err != nil {
 		vs = append(vs, Viol{"C09|massive-dry-run-error|" + e.d.Op, fmt.Sprintf("driver %s: %v", e.d, e.Err)})
-	} else if !isPermutationOfBlocks(out, e.blocks, "", true) {
+	} else if !isPermutationOfBlocks(model.NormSummary(out), e.blocks, "", true) {
 		vs = append(vs, Viol{"C09|wrong-report|massive|" + e.d.Op, fmt.Sprintf("driver %s:\n got %q\nwant a permutation of %q", e.d, out, e.blocks)})
 	}
 	if e.d.needsFS() && (len(e.After) != 0 || e.OutsideChanged != "") {
@@ -206,7 +206,7 @@ func init() {
 			var blocks []string
 			for _, r := range model.Merge(sp.Forest) {
 				d, f := model.Counts(r, x.exts)
-				blocks = append(blocks, model.RenderRoot(r, model.DefaultFmt)+fmt.Sprintf("\n%d directories, %d files\n", d, f))
+				blocks = append(blocks, model.NormSummary(model.RenderRoot(r, model.DefaultFmt)+fmt.Sprintf("\n%d directories, %d files\n", d, f)))
 			}
 			for _, op := range []string{"out-dry", "mkdir-dry"} {
 				d := NewDrv(op, x.doc)
@@ -222,7 +222,7 @@ func init() {
 			d.Root, d.Exts = sp.Forest[0], x.exts
 			name := fmt.Sprintf("c09/doc%d/root:mkdir-dry", di)
 			dn, fn := model.Counts(m, x.exts)
-			bl := []string{model.RenderRoot(m, model.DefaultFmt) + fmt.Sprintf("\n%d directories, %d files\n", dn, fn)}
+			bl := []string{model.NormSummary(model.RenderRoot(m, model.DefaultFmt) + fmt.Sprintf("\n%d directories, %d files\n", dn, fn))}
 			out = append(out, &Scenario{Name: name, Prop: "C09", Workers: w2, Bound: k, Policies: pols,
 				New: func() Exec { return &c09Exec{DrvRun: d.New(), blocks: bl} }})
 		}
